@@ -83,3 +83,71 @@ Print Assumptions C13_eids_after_process.
 Print Assumptions C13_only_assignment_changes_eid.
 Print Assumptions C13_eid_is_last_assigned.
 Print Assumptions C13_eid_is_last_assigning_packet.
+
+(* ---------- the responder refines an abstract endpoint (proofs/Refine.v) ----------
+   The abstract endpoint is three fields — the two EID cells and the UUID — and `answer` (twelve lines) says what it
+   replies to a request; `astep` is its transition over EVERY operation of the interface: only a serviced request
+   (accepted, command 1..6, outside the recorded panic classes) with Set Endpoint ID operation set / force, an
+   accessor call, or a 16-byte set_uuid changes it.  Every history of the model is a history of that endpoint:
+   the state (both EIDs, the UUID) after any well-formed history is the fold of astep, and every answered request
+   is answered with the bytes `answer` gives in the state the history has reached (aobs = that answer framed as
+   resp_obs: spec_packet from the responder to the request's source, then the untouched tail of the buffer).
+   C13 (the EID is the last assigned), C15 (identity answers unaffected by other traffic), C11 (nothing else writes a
+   response) and C02 (a packet with a wrong PEC is not serviced) are instances. *)
+Require Import Refine.
+Theorem C13_responder_state_is_the_abstract_endpoint : forall ovf g ops,
+  wf_cfg g -> valid_cfg g = true -> Forall wf_op ops ->
+  abs (run_ctx ovf (ctx_of g) ops) = fold_left (astep g) ops a0.
+Proof. exact run_refines. Qed.
+Theorem C13_responder_answers_as_the_abstract_endpoint : forall ovf g pre p buf post,
+  wf_cfg g -> valid_cfg g = true -> Forall wf_op (pre ++ OProcess p buf :: post) ->
+  answered g p buf = true ->
+  let s := fold_left (astep g) pre a0 in
+  let s' := astep g s (OProcess p buf) in
+  nth_error (run ovf (ctx_of g) (pre ++ OProcess p buf :: post)) (length pre) =
+  Some (aobs g s p buf, (a_req s', a_resp s')).
+Proof. exact answers_refine. Qed.
+Theorem C13_one_step_refinement : forall ovf g c o,
+  wf_cfg g -> cinv g c -> valid_cfg g = true -> wf_op o ->
+  abs (fst (step ovf c o)) = astep g (abs c) o /\
+  (forall p buf, o = OProcess p buf -> answered g p buf = true -> snd (step ovf c o) = aobs g (abs c) p buf) /\
+  (forall p buf, o = OProcess p buf -> serviced g p = false -> silent buf (snd (step ovf c o))).
+Proof. exact step_refines. Qed.
+(* a packet whose PEC is wrong is never serviced: the abstract endpoint does not move (C02 at this level) *)
+Theorem C13_bad_pec_is_not_serviced : forall g s p buf,
+  pec_good p = false -> serviced g p = false /\ astep g s (OProcess p buf) = s.
+Proof.
+  intros g s p buf H.
+  assert (E : serviced g p = false).
+  { unfold serviced, accepted_request, wf_packet. rewrite H. rewrite andb_false_r. reflexivity. }
+  split; [exact E|]. cbn [astep]. rewrite E. reflexivity.
+Qed.
+
+Print Assumptions C13_responder_state_is_the_abstract_endpoint.
+Print Assumptions C13_responder_answers_as_the_abstract_endpoint.
+Print Assumptions C13_one_step_refinement.
+Print Assumptions C13_bad_pec_is_not_serviced.
+
+(* ---------- whole sessions through the library's own API on both sides (proofs/Session.v) ----------
+   A bus owner A makes a list of calls to its request encoders (call = encoder id 1..6 and its arguments); each is
+   encoded by A (deliver: encode_call into a scratch buffer) and the bytes are processed by endpoint B.  `effect` is
+   what a call means for B's abstract state: only set_endpoint_id with operation set / force moves it.  For every
+   session of deliverable calls (arguments of the documented shapes, not refused by the encoder, outside B's recorded
+   panic classes), however long: B's state is the fold of `effect`, so B's EID — both halves — is the EID argument
+   of the LAST set_endpoint_id(set | force) call of the session, 0 if there was none, and the UUID is untouched. *)
+Require Import Session.
+Theorem C13_session_state_is_the_meaning_of_the_calls : forall ovf gA cA gB cB ks,
+  wf_cfg gA -> cinv gA cA -> wf_cfg gB -> cinv gB cB -> valid_cfg gB = true -> session_ok gB ks ->
+  exists cB', session ovf cA cB ks = Some cB' /\
+              abs cB' = fold_left effect (map fst ks) (abs cB) /\ cinv gB cB'.
+Proof. exact session_refines. Qed.
+Theorem C13_session_eid_is_last_set : forall ovf gA cA gB ks,
+  wf_cfg gA -> cinv gA cA -> wf_cfg gB -> valid_cfg gB = true -> session_ok gB ks ->
+  exists cB', session ovf cA (ctx_of gB) ks = Some cB' /\
+    c_eid_req cB' = match last_set (map fst ks) with Some e => e | None => 0 end /\
+    c_eid_resp cB' = match last_set (map fst ks) with Some e => e | None => 0 end /\
+    c_uuid cB' = repeat 0 16.
+Proof. exact session_eid_is_last_set. Qed.
+
+Print Assumptions C13_session_state_is_the_meaning_of_the_calls.
+Print Assumptions C13_session_eid_is_last_set.
